@@ -16,6 +16,8 @@ import (
 	"fmt"
 	"net"
 	"net/url"
+	"sort"
+	"sync"
 
 	"github.com/saucelabs/forwarder/httplog"
 	"github.com/saucelabs/forwarder/internal/martian"
@@ -37,8 +39,12 @@ func (l vfRecLog) rec(msg string, args []any) {
 		}
 		s += " " + fmt.Sprintf("%v", a)
 	}
+	vfRecMu.Lock() // natively the two tunnel copy goroutines log concurrently
 	*l.lines = append(*l.lines, s)
+	vfRecMu.Unlock()
 }
+
+var vfRecMu sync.Mutex
 func (l vfRecLog) Error(msg string, args ...any)                             { l.rec(msg, args) }
 func (l vfRecLog) Warn(msg string, args ...any)                              { l.rec(msg, args) }
 func (l vfRecLog) Info(msg string, args ...any)                              { l.rec(msg, args) }
@@ -232,6 +238,11 @@ func vfH_C19_debug_log() {
 	}
 	l1 := vfSuccessfulTunnelLog(p1, viaCreds)
 	l2 := vfSuccessfulTunnelLog(p2, viaCreds)
+	if !vfrt.Symbolic() {
+		// the native scheduler orders the two copy goroutines' lines freely; the engine's order is fixed
+		sort.Strings(l1)
+		sort.Strings(l2)
+	}
 	vfrt.Assert(len(l1) > 0, "debug-log/something-is-logged")
 	vfrt.Assert(len(l1) == len(l2), "debug-log/lines-independent-of-the-upstream-password")
 	if len(l1) == len(l2) {
